@@ -210,6 +210,21 @@ def run(chk):
   chk.ob('C05-R5', ok, None, 'complexity of a predicate exceeds that of everything it depends on',
          'complexity is no longer 1 + sum over dependencies', fi=bc)
 
+  chk.rule('C05-R6', 'closing a record literal closes the record every '
+           'unified reference sees (end of the reference chain), and record '
+           'literals are closed after their fields are unified', min_instances=2)
+  from rules.c16 import end_of_chain
+  end_of_chain(chk, 'C05-R6')
+  rl = FnView(repo, 'infer.TypeInferenceForRule.ActMindingRecordLiterals')
+  closes = [(n, c) for n, c in rl.all_calls() if call_tail(c) == 'CloseRecord']
+  fields = [(n, c) for n, c in rl.all_calls() if call_tail(c) == 'UnifyRecordField']
+  chk.ob('C05-R6', bool(closes) and bool(fields) and all(
+      not any(fn in rl.cfg.reachable(cn) and fn != cn for fn, _ in fields) for cn, _ in closes),
+         None, 'a record literal is closed after all its fields were unified into it',
+         'the record is closed before (or without) its fields being added: '
+         'addressing a field of a literal clashes, or missing fields are accepted',
+         fi=rl.fi)
+
   chk.rule('C05-R3', 'whole-program checking (__init__) and per-structure '
            'checking (SingleRuleSql) are gated by the same predicate '
            'Annotations.ShouldTypecheck()', min_instances=2)
